@@ -10,6 +10,7 @@ import os
 import sys
 import time
 import warnings
+from numbers import Integral
 from typing import Dict, List, Hashable
 
 import numpy as np
@@ -351,8 +352,12 @@ class Evaluator(abc.ABC):
                 objectives = job.objective
             else:
                 objectives = [job.objective]
+            # (an integer is finite; np.isfinite does not accept Python integers beyond 64 bits)
             if any(
-                np.isscalar(obj) and np.isreal(obj) and not (np.isfinite(obj))
+                np.isscalar(obj)
+                and np.isreal(obj)
+                and not isinstance(obj, Integral)
+                and not (np.isfinite(obj))
                 for obj in objectives
             ):
                 job.output["objective"] = Evaluator.FAIL_RETURN_VALUE
